@@ -112,10 +112,16 @@ pub fn verif_seed() -> u64 {
         .unwrap_or(20260101)
 }
 
+/// The verification directory: VERIF_ROOT, else the directory that holds `.build/target/debug/vsim`.
 pub fn verif_root() -> std::path::PathBuf {
-    std::env::var("VERIF_ROOT")
-        .map(std::path::PathBuf::from)
-        .unwrap_or_else(|_| std::path::PathBuf::from("/verif"))
+    if let Ok(r) = std::env::var("VERIF_ROOT") {
+        return std::path::PathBuf::from(r);
+    }
+    std::env::current_exe()
+        .ok()
+        .and_then(|e| e.parent().and_then(|p| p.parent()).and_then(|p| p.parent()).and_then(|p| p.parent()).map(|p| p.to_path_buf()))
+        .filter(|p| p.join("sim").is_dir())
+        .unwrap_or_else(|| std::path::PathBuf::from("/verif"))
 }
 
 pub struct Known {
